@@ -310,31 +310,9 @@ pub(crate) fn gate_case(sig: &'static str, returns_bool: bool) {
     kani::cover!(true, "COVER:end");
 }
 
-/// cross-check of the gate on unstructured input (thorough): for ALL printable strings of length <= L
-/// that contain no "fn(" at all the gate refuses (there is no function type whose return could be bool).
-#[kani::proof]
-#[kani::unwind(14)]
-#[kani::stub(crate::injector_core::internal::WhenCalled::will_return_boolean_guard, rec_will_return_boolean_guard)]
-fn c10_gate_unstructured() {
-    fresh_world();
-    let mut a = [0u8; L];
-    let la = sym_str(&mut a);
-    let mut has_fn = false;
-    let mut i = 0;
-    while i + 2 < L {
-        if i + 2 < la && a[i] == b'f' && a[i + 1] == b'n' && a[i + 2] == b'(' {
-            has_fn = true;
-        }
-        i += 1;
-    }
-    kani::assume(!has_fn);
-    let sa = unsafe { as_static_str(&a, la) };
-    refusal(bit(K_NOT_BOOL), true);
-    let mut inj = InjectorPP::new();
-    inj.when_called(arena_fp(0, sa)).will_return_boolean(true);
-    kani::cover!(true, "COVER:not-refused");
-    std::mem::forget(inj);
-}
+// (A cross-check of the boolean gate on fully symbolic strings was tried and dropped: `str::find` over a
+//  symbolic haystack does not get through CBMC in hours; the enumerated signature family of
+//  contracts/gen_gate.py — 746 members in the thorough tier — is what decides the gate.)
 
 // ---- C07: counting starts from zero -------------------------------------------------------------
 
